@@ -19,7 +19,7 @@ META = {
                 "gpio.Peripheral.Output._FieldAction.elaborate", "csr.reg.Builder", "csr.reg.Bridge",
                 "csr.bus.Multiplexer.elaborate", "csr.reg.Register.elaborate", "csr.action.R/W/RW"],
     "also": '17 pins (thorough 24, 33); 24- and 40-bit data buses with registers that just spill into another word; Mode writes inside the enumerated sequences; two SetClr writes back to back; enumerated Output/SetClr/read sequences without idle cycles; pins checked in every cycle across Mode/Output/SetClr writes',
-    "bounds": "pin count 1,2,3,4,5,8,9 (thorough + 12,16,17), data width 8/16 (thorough 8/16/32), minimal address "
+    "bounds": "pin count 1,2,3,4,5,8,9,17 and 40 (thorough + 12,16,24,33), data width 8/16 (thorough 8/16/32), minimal address "
               "width and +1, input_stages 0-3; windows: Mode write + Output write (+2), Output write + SetClr write + "
               "Output read-back, Input read with pin inputs free in every cycle; register transactions back to back "
               "(gaps inside the multiplexer are C04/C05's subject)",
